@@ -203,6 +203,14 @@ func specialFamily() []*pg.Program {
 		p := parProg(par, "S:"+fam)
 		mod(p)
 		ps = append(ps, p)
+		// a flow whose second task has fallback values (more hoisted expressions, used inside a task closure)
+		if fb := pg.WithPredFallback(pg.Shape("chain2"), nil, 1); len(fb) > 0 {
+			f := fb[len(fb)-1]
+			f.Conc = "2"
+			pf := flowProg(f, "S:"+fam)
+			mod(pf)
+			ps = append(ps, pf)
+		}
 		// a parallel with instrumented task (uses time/debug in other template paths)
 		par2 := &pg.Parallel{Items: []pg.Item{{Kind: "task", Err: true, Ctx: true}, {Kind: "map", Err: true, End: &pg.End{Err: true}}}, Conc: "2"}
 		p2 := parProg(par2, "S:"+fam)
@@ -258,6 +266,16 @@ func specialFamily() []*pg.Program {
 					p.Flow.Conc = "expr"
 				}
 			})
+		}
+	}
+	// the variable behind a cff.Results pointer is named like a local of the generated code
+	for _, nm := range genLocalNames {
+		for _, n := range []string{"chain2", "multi"} {
+			f := pg.Shape(n)
+			f.Conc = "2"
+			p := flowProg(f, "S:resultname="+nm)
+			p.F.ResultName = nm
+			ps = append(ps, p)
 		}
 	}
 	for _, sp := range []string{pg.SpPtr, pg.SpBasic, pg.SpSlice, pg.SpMap, pg.SpGeneric, pg.SpExt} {
